@@ -16,6 +16,8 @@ from ipaddress import (
 from typing import Protocol
 from urllib.parse import unquote, urlparse
 
+from ..utils.url import canonical_path_segments
+
 
 class Middleware(Protocol):
     """Protocol for middleware components."""
@@ -356,18 +358,9 @@ class CertificateAuth:
         try:
             parsed = urlparse(request_url)
             path = unquote(parsed.path or "/")
+            segments = canonical_path_segments(parsed.path or "/")
         except Exception:
             return "/"
-
-        segments: list[str] = []
-        for segment in path.split("/"):
-            if segment in ("", "."):
-                continue
-            if segment == "..":
-                if segments:
-                    segments.pop()
-                continue
-            segments.append(segment)
 
         canonical = "/" + "/".join(segments)
         if segments and path.endswith("/"):
